@@ -14,7 +14,8 @@ import (
 // package directive are uninterpreted functions of the directive kinds). On every path that returns success the
 // incoming directive is placed exactly once, either as a child or in the root list, and the two ways of placing are
 // never mixed; the cursor ends on the directive; a context is left only when it is implicit and does not admit the
-// directive. The facts are about terms, so the layout of the function does not matter.
+// directive (or is the implicit URL that a method with a path of its own ends); the root list is appended to only
+// in the root context. The facts are about terms, so the layout of the function does not matter.
 func (c *Ctx) ruleC11PlacementPaths() {
 	r := c.R
 	r.Rule("C11-PLACEMENT-PATHS", "on every path of processContext that returns success: the directive is either appended to the root list or attached as a child (AppendChild on, and Parent set to, the same context: the cursor of that moment), never both and never a Parent without the attachment; a child is attached only after IsAllowedForDirectiveContext said yes for that context; a root append happens only with the cursor nil and IsAllowedForRootContext yes, or after IsAllowedForDirectiveContext yes together with the method-with-Path test; the cursor ends on the directive; every context that is left was found implicit and not admitting the directive; a path that returns an error places nothing", 3)
@@ -116,7 +117,11 @@ func (c *Ctx) ruleC11PlacementPaths() {
 				}
 			}
 			if !hasPred(no, "IsAllowedForDirectiveContext", l) {
-				bads["a context is left although it was not asked whether it admits the directive (or it does)"] = true
+				// one more way to leave a context: an HTTP method that brings a path of its own ends the implicit URL
+				// it follows (the URL admits methods, but this one starts a resource of its own)
+				if !(hasPred(yes, "IsAllowedForDirectiveContext", l) && hasPred(yes, "IsHTTPRequestMethod", "d")) {
+					bads["a context is left although it was not asked whether it admits the directive (or it does)"] = true
+				}
 			}
 		}
 		if o.Incomplete != "" {
@@ -150,19 +155,10 @@ func (c *Ctx) ruleC11PlacementPaths() {
 					bads["the directive is appended to the root list in the root context although IsAllowedForRootContext did not say yes"] = true
 				}
 			} else {
-				pc := placeCursor(o, loc)
-				if !hasPred(yes, "IsAllowedForDirectiveContext", pc) || !hasPred(yes, "IsHTTPRequestMethod", "d") {
-					bads["the directive is appended to the root list from inside a context without the admits-test and the method test saying yes"] = true
-				}
-				explicitNo := false
-				for t := range no {
-					if strings.HasPrefix(t, "L("+pc+".HasExplicitContext)@") {
-						explicitNo = true
-					}
-				}
-				if !explicitNo {
-					bads["the directive is appended to the root list from inside a context that was not found implicit"] = true
-				}
+				// (until the fix f871dcb a method with a path under an implicit URL was appended to the root list from
+				// inside the URL, whatever held the URL: inside a MACRO the explicit context of the macro was left
+				// silently, F34)
+				bads["the directive is appended to the root list while a context is open: whatever encloses that context (the explicit context of a MACRO) is left silently; a new root starts only where the walk-up has reached the root"] = true
 			}
 		case rootAppend == 0 && attach != "" && parentSet == attach:
 			if !hasPred(yes, "IsAllowedForDirectiveContext", attach) {
